@@ -139,7 +139,15 @@ func (encryptor *MySQLTokenizeQuery) OnBind(ctx context.Context, statement sqlpa
 	}
 
 	bindData := mysql.ParseSearchQueryPlaceholdersSettings(statement, encryptor.schemaStore)
-	if len(bindData) > len(indexes) {
+	// bindData describes the placeholders of searchable columns (the search rewriter's) as well:
+	// only the ones tokenized here have to be among the indexes found above
+	own := 0
+	for _, setting := range bindData {
+		if setting.IsTokenized() {
+			own++
+		}
+	}
+	if own > len(indexes) {
 		return values, false, nil
 	}
 	// Finally, once we know which values to replace with tokenized values, do this replacement.
